@@ -35,6 +35,7 @@ import (
 	"time"
 
 	"github.com/kubeshark/base/pkg/api"
+	stg "verif/harness/stage"
 	"github.com/kubeshark/base/pkg/extensions/redis"
 
 	"verif/harness/mock"
@@ -61,7 +62,11 @@ type Result struct {
 	Wall   float64 `json:"wall,omitempty"`
 	N      int     `json:"n,omitempty"`
 	Killed string  `json:"killed,omitempty"`
+	// stage mode: every emitted item through the later stages (C11) with its own queries and all macros (C16)
+	Stages []stg.Result `json:"stages,omitempty"`
 }
+
+var stageMode bool
 
 func main() {
 	if len(os.Args) < 2 {
@@ -70,6 +75,9 @@ func main() {
 	}
 	switch os.Args[1] {
 	case "run":
+		runAll(false)
+	case "stage":
+		stageMode = true
 		runAll(false)
 	case "cost-child":
 		runAll(true)
@@ -253,6 +261,13 @@ func runCase(c *Case) (res Result, reads int64) {
 		copy(row[0:5], q[:])
 		copy(row[5:10], r[:])
 		res.Items = append(res.Items, row)
+	}
+	if stageMode {
+		for _, it := range coll.Items {
+			r := stg.Run(&api.Extension{Dissector: redis.Dissector}, it, false)
+			r.Micros = 0
+			res.Stages = append(res.Stages, r)
+		}
 	}
 	matcher.GetMap().Range(func(k, v interface{}) bool { res.Res++; return true })
 	reads = hc.rd.Reads + hs.rd.Reads
